@@ -28,7 +28,7 @@ def deriveEntity (isNode compose : Bool) (e : DirEntry) : Option (Str × EntityI
       if !(isYamlExt ext && e.isFile) then none
       else
         let dirs := revDirs.reverse
-        let stem := fileStem fname
+        let stem := stemNoExt fname
         -- `relpath.with_extension("")`, then the `init` rule
         let (clsSegs, loc) :=
           if stem = Extracted.initName.toList then (dirs, dropLast dirs)
